@@ -34,6 +34,10 @@ class Target:
             self.rate = np.array(spec["rate"], dtype=float)
         elif k == "flat":
             pass
+        elif k == "plateau":
+            # flat top (log-density 0, returned as the Python int 0 - as a hand-written posterior may) with linear tails
+            self.c = np.array(spec["c"], dtype=float)
+            self.w = np.array(spec["w"], dtype=float)
         elif k == "cells":
             self.lo = np.array(spec["lo"], dtype=float)
             self.hi = np.array(spec["hi"], dtype=float)
@@ -73,6 +77,8 @@ class Target:
             return float(-np.sum(self.rate * t))
         if k == "flat":
             return 0.0
+        if k == "plateau":
+            return float(-np.sum(np.maximum(np.abs(t - self.c) / self.w - 1.0, 0.0)))
         if k == "cells":
             if np.any(t < self.lo) or np.any(t > self.hi):
                 return -1e300
@@ -123,6 +129,8 @@ class Target:
 
     def __call__(self, theta):
         v = self.logp(theta)
+        if self.kind == "plateau" and v == 0:
+            v = 0
         self.n_calls += 1
         if self.record:
             self.trace.append((np.array(theta, dtype=float, copy=True), v))
